@@ -103,7 +103,9 @@ func sparse3(t *rapid.T, label string, tl *timeline) {
 	// first write after B2 comes earlier in its interval than the failing one did in its own.
 	period := rapid.SampledFrom([]int{1350, 1330, 1340}).Draw(t, label+"periodS") // writes at +0.1, 1.45, 2.8, 4.15 (B1+1.15), 5.5, 6.85 (B2+0.85) s
 	*tl = timeline{IntervalS: 3, Aligned: true, Companion: 3, Writers: 1, PeriodMS: []int{period}, DurMS: 8400, ViaLogger: tl.ViaLogger, AsFile: tl.AsFile}
-	tl.Outages = []window{{2950 + rapid.IntRange(0, 600).Draw(t, label+"fromS"), 5300 + rapid.IntRange(0, 350).Draw(t, label+"toS")}}
+	// ... and the directory is back before the writer's last write of that interval (at about +5.45 s):
+	// that write finds the directory there and still must not create a file
+	tl.Outages = []window{{2950 + rapid.IntRange(0, 600).Draw(t, label+"fromS"), 5240 + rapid.IntRange(0, 100).Draw(t, label+"toS")}}
 }
 
 // saturated turns tl into a time-line through an asynchronous, blocking root logger that flooders
